@@ -2,6 +2,8 @@ package scen
 
 import (
 	"encoding/json"
+	authtypes "github.com/cosmos/cosmos-sdk/x/auth/types"
+	vestingtypes "github.com/cosmos/cosmos-sdk/x/auth/vesting/types"
 	baskettypes "github.com/regen-network/regen-ledger/x/ecocredit/v3/basket/types/v1"
 
 	"strings"
@@ -218,6 +220,7 @@ func Market() Spec {
 		fix(Sell(D, B1, "1", ur(3), true, nil)),             // no credits
 		fix(Sell(B, B1, "1", coin("stake2", 3), true, nil)), // denom not allowed
 		CancelOrder(C, B, 0),                                // not the seller
+		CancelOrder(G, C, 0),                                // the authority is not the seller either
 		UpdateOrder(C, B, 0, "5", nil, true, nil),           // not the seller
 		Buy(D, "over-ask-qty", BuySpec{Seller: B, K: 0, Qty: "+eps", DAR: true}),
 		Buy(D, "underbid", BuySpec{Seller: B, K: 0, Qty: "0.5", BidAdj: -1, DAR: true}),
@@ -286,8 +289,25 @@ func Market() Spec {
 	)
 	prepared := PreparedSeed("prepared",
 		Msg("gov:allow-uusdc", &markettypes.MsgAddAllowedDenom{Authority: G.String(), BankDenom: "uusdc", DisplayDenom: "usdc", Exponent: 6}),
-		Msg("gov:allow-uusd", &markettypes.MsgAddAllowedDenom{Authority: G.String(), BankDenom: "uusd", DisplayDenom: "usd", Exponent: 6}))
+		Msg("gov:allow-uusd", &markettypes.MsgAddAllowedDenom{Authority: G.String(), BankDenom: "uusd", DisplayDenom: "usd", Exponent: 6}),
+		// the authority account itself holds credits of b1 and has some of them on sale
+		Send(B, G, B1, "3", "0"),
+		Sell(G, B1, "2", coin("uregen", 9), true, nil))
 	prepared.Name = "prepared"
+	// a buyer whose coins are all LOCKED (a permanent-locked vesting account): its balance covers a purchase,
+	// its spendable balance does not, so the payment is refused by the bank after the marketplace's own
+	// funds check has passed
+	build := prepared.Build
+	prepared.Build = func(c *chain.Chain) sdk.Context {
+		ctx := build(c)
+		locked := sdk.NewCoins(coin("uregen", 1000))
+		base := authtypes.NewBaseAccountWithAddress(L)
+		base.AccountNumber = c.AK.NextAccountNumber(ctx)
+		c.AK.SetAccount(ctx, vestingtypes.NewPermanentLockedAccount(base, locked))
+		c.Fund(ctx, L, locked)
+		return ctx
+	}
+	good = append(good, Buy(L, "B0-half-by-locked-buyer", BuySpec{Seller: B, K: 0, Qty: "0.5", DAR: true, MaxFee: I64(100)}))
 	return Spec{Name: "market", Seeds: []explore.Seed{prepared, FreshCoreSeed()},
 		Events: append(good, bad...), DepthQuick: 4, DepthThor: 5, ExpectFail: expectFail(names(bad...)...), MinStates: 500}
 }
